@@ -623,7 +623,102 @@ def _block_containing(fn: FunctionInfo, node: ast.AST) -> list[ast.stmt]:
     return fn.node.body
 
 
+def list_refinement_rule(ctx: Ctx, rid: str) -> int:
+    """Every refinement of a list type (a MetaHandlerGenerator whose generate accepts a generic list as base type) is
+    interpreted with the base type list[X] for X = a symbol, a list, a refined symbol and a union: each element is obtained by
+    asking the creation callback for exactly X - the element type, unwrapped by one level only - so nested lists stay lists
+    and refined elements keep their refinement; what is returned holds exactly the created elements, in order."""
+    from ..modelinterp import Budget, Effect, Interp, LocalFn, Obj, Sym, TypeV, UNKNOWN, _NONE
+    from ..treemodel import A, B, MH
+    prog = ctx.prog
+    lst = lambda t: TypeV("list", f"list[{t.name}]", (t,))                                   # noqa: E731
+    elems = [A, lst(A), TypeV("annotated", "Annotated[A, MH]", (A,), MH), TypeV("union", "Union[A, B]", (A, B))]
+    n = 0
+    for c in sorted(prog.subclasses(METAHANDLER), key=lambda x: x.fullname):
+        gen = prog.lookup_method(c, "generate")
+        if gen is None or gen.cls is None or gen.cls.fullname == METAHANDLER or len(gen.params) < 5:
+            continue
+        # a list refinement: its generate mentions the list-type predicate (directly or in a helper it calls)
+        def mentions_list(f, depth=0):
+            for x in walk_local(f.node):
+                if isinstance(x, ast.Call) and call_name(x) == "is_generic_list":
+                    return True
+                if depth < 2 and isinstance(x, ast.Call) and isinstance(x.func, ast.Name):
+                    full = prog.resolve_name(f.module, x.func.id)
+                    g_ = prog.functions.get(full) if full else None
+                    if g_ is not None and g_.cls is None and mentions_list(g_, depth + 1):
+                        return True
+                if depth < 2 and isinstance(x, ast.Call) and isinstance(x.func, ast.Attribute) and isinstance(x.func.value, ast.Name) and x.func.value.id == "self":
+                    g_ = prog.lookup_method(c, x.func.attr)
+                    if g_ is not None and g_ is not f and mentions_list(g_, depth + 1):
+                        return True
+            return False
+        if not mentions_list(gen):
+            continue
+        for X in elems:
+            n += 1
+            asked: list = []
+
+            def call_model(it, call, env, args, kwargs, asked=asked):
+                nm = call_name(call)
+                if nm == "randint" and isinstance(call.func, ast.Attribute):
+                    return 2
+                if nm == "rec" and isinstance(call.func, ast.Name) and "rec" not in env:
+                    return None
+                if nm == "GengyList" and len(args) == 2:
+                    return Obj("GengyList", {"typ": args[0], "items": args[1]})
+                return None
+
+            def sym_result(fv, args, asked=asked):
+                if fv.tag == "rec":
+                    asked.append(args[0] if args else UNKNOWN)
+                    return Sym(f"elem{len(asked)}")
+                return Sym(f"{fv.tag}()")
+
+            it = Interp(prog, c, lambda *_: None, call_model, max_depth=8, max_traces=8)
+            it.sym_result = sym_result
+            it.allow_recursion = True
+            ps = gen.params
+            env = {"self": Sym("self"), "self.min": 2, "self.max": 2, ps[1]: Sym("random"), ps[2]: Sym("grammar"), ps[3]: lst(X),
+                   ps[4]: Sym("rec")}
+            for p_ in ps[5:]:
+                env[p_] = {}
+            construct = f"{c.name}.generate on list[{X.name}]: every element is created as a value of the element type {X.name}"
+            try:
+                runs = it.run(gen, env)
+            except Budget:
+                ctx.ob(rid, gen, gen.node, construct, None, "too many interpretations")
+                continue
+            verdict, why = True, ""
+            done = [r for r in runs if not any(e.kind == "raise" for e in r[0])]
+            if not done:
+                verdict, why = None, "no interpretation of generate completes on this list type"
+            for trace, rv, notes in done:
+                calls = [e.args[0] if e.args else UNKNOWN for e in trace if e.kind == "callsym" and e.name == "rec"]
+                if notes:
+                    verdict, why = None, notes[0]
+                    break
+                if not calls:
+                    verdict, why = None, "the creation callback is not called in the model"
+                    break
+                wrong = [t for t in calls if t != X]
+                if any(not isinstance(t, TypeV) for t in wrong):
+                    verdict, why = None, "the type handed to the creation callback is not followed"
+                    break
+                if wrong:
+                    verdict = False
+                    why = (f"the elements of a list[{X.name}] are created as values of type {getattr(wrong[0], 'name', wrong[0])!s}: "
+                           + ("the inner list level is lost (a flat list of its elements is produced)" if X.kind == "list" else
+                              "the element's own refinement is dropped, so elements outside it are produced" if X.kind == "annotated" else
+                              "the element type is not the one declared"))
+                    break
+            ctx.ob(rid, gen, gen.node, construct, verdict, why, witness={"element_type": X.name})
+    return n
+
+
 def run(ctx: Ctx) -> None:
+    ctx.rule("C02.R7", "list refinements create every element through the callback as a value of the declared element type (one level unwrapped)")
+    ctx.floor("C02.R7", list_refinement_rule(ctx, "C02.R7"), 8, "list refinement x element type")
     ctx.rule("C02.R1", "every value generate can produce is accepted by validate, for all parameters (abstract interpretation)")
     ctx.rule("C02.R2", "creators route annotated fields through the refinement; the branch is reachable")
     ctx.rule("C02.R3", "sibling values: fresh per-node dict, filled after every field, forwarded to children and to generate")
